@@ -861,6 +861,8 @@ def check_true(prog, rep):
 
 
 def run(prog, rep, tier):
+    rep.explanation = ('Path language over the replicate loop (one block per parallel record list on every path), role typing of the lists against the frame columns, value-numbered record value and heritability formulas, derived-state invalidation, and an index-space rule for the name-keyed alignment loop of the mean-phenotype estimator.')
+    rep.not_decided = ['convergence of realised environment / replicate / error variances (distributional)', 'pandas group-by and concat semantics (trusted)', 'row-order invariance as a runtime fact (follows from group-by + lookup by name)']
     check_phenotype(prog, rep)
     check_fresh(prog, rep)
     check_heritability(prog, rep)
